@@ -986,6 +986,8 @@ impl Session {
                 "[Session] write_with_padding: Writing {} bytes without padding",
                 buffer.len()
             );
+            #[cfg(feature = "verif")]
+            crate::verif::point("wp:lock").await;
             let mut writer = self.writer.lock().await;
             #[cfg(feature = "verif")]
             crate::verif::point("wp:piece").await;
@@ -1018,6 +1020,8 @@ impl Session {
             // Stop padding after stop packets
             // Note: We should probably disable send_padding, but that requires mutable access
             // For now, just write directly
+            #[cfg(feature = "verif")]
+            crate::verif::point("wp:lock").await;
             let mut writer = self.writer.lock().await;
             #[cfg(feature = "verif")]
             crate::verif::point("wp:piece").await;
@@ -1037,6 +1041,8 @@ impl Session {
 
         // If no sizes defined, write directly
         if pkt_sizes.is_empty() {
+            #[cfg(feature = "verif")]
+            crate::verif::point("wp:lock").await;
             let mut writer = self.writer.lock().await;
             #[cfg(feature = "verif")]
             crate::verif::point("wp:piece").await;
@@ -1051,6 +1057,8 @@ impl Session {
             return Ok(());
         }
 
+        #[cfg(feature = "verif")]
+        crate::verif::point("wp:lock").await;
         let mut writer = self.writer.lock().await;
 
         for size in pkt_sizes {
